@@ -39,10 +39,13 @@ def cfg_key(cfg):
     return "tags=%d,abi=%d,%s" % (1 if cfg["tags"] else 0, cfg["abi"], ",".join("%s=%s" % kv for kv in sorted(cfg["env"].items())))
 
 
-def new_state(rng, full=True):
+def new_state(rng, full=True, cgo=False):
     n = rng.randint(2, 4)
     s = {
         "full": full,
+        "cgo": cgo,
+        "cg_on": rng.randint(100, 499),
+        "cg_off": rng.randint(500, 999),
         "main_k": rng.randint(10, 99),
         "x": "defx",
         "pa_k": rng.randint(10, 99),
@@ -68,6 +71,9 @@ def new_state(rng, full=True):
 def _main(s):
     imp = ['"%s/pc"' % MOD, '"%s/pd1"' % MOD, '"%s/pg"' % MOD, '"%s/pr"' % MOD, '"%s/pt"' % MOD]
     body = []
+    if s.get("cgo"):
+        imp.insert(1, '"%s/pcg"' % MOD)
+        body.append('\tprintln("pcg", pcg.Val())')
     if s["full"]:
         imp.insert(0, '"%s/pa"' % MOD)
         body.append("\tn, names, total := pa.GInfo()")
@@ -163,6 +169,10 @@ def render(s):
     f["pc/wrap/c.h"] = "#define C13_HDR %d\n" % s["c_hdr"]
     f["pc/top.h"] = "#define C13_TOP %d\n" % s["c_top"]
     f["pg/pg.go"] = _pg(s)
+    if s.get("cgo"):
+        # the tag does not select a file here: it changes the C flags of one and the same file list
+        f["pcg/pcg.go"] = ("package pcg\n\n/*\n#cgo %s CFLAGS: -DC13_TAGVAL=%d\n#ifndef C13_TAGVAL\n#define C13_TAGVAL %d\n#endif\n"
+                           "static int tagval(void) { return C13_TAGVAL; }\n*/\nimport \"C\"\n\nfunc Val() int { return int(C.tagval()) }\n" % (TAG, s["cg_on"], s["cg_off"]))
     for i in range(1, len(s["pd"]) + 1):
         f["pd%d/pd%d.go" % (i, i)] = _pd(s, i)
     f["pt/on.go"] = "//go:build %s\n\npackage pt\n\nconst T = %d\n" % (TAG, s["pt_on"])
@@ -191,6 +201,8 @@ def expected(s, cfg):
     out = []
     out.append("main %d" % s["main_k"])
     out.append("X %s" % s["x"])
+    if s.get("cgo"):
+        out.append("pcg %d" % (s["cg_on"] if cfg["tags"] else s["cg_off"]))
     if s["full"]:
         names = sorted(s["pa_g"])
         total = 0
@@ -223,6 +235,8 @@ def packages(s):
     p = ["pc", "pg", "pt", "pr"] + ["pd%d" % i for i in range(1, len(s["pd"]) + 1)]
     if s["full"]:
         p.append("pa")
+    if s.get("cgo"):
+        p.append("pcg")
     return sorted(p)
 
 
@@ -243,7 +257,7 @@ def _samelen(rng, cur):
 
 # kind -> (needs_full, is_config, packages whose archive must change)
 FILE_KINDS = ["go_body", "go_generic_body", "go_main", "dep_leaf", "dep_mid", "c_hdr_pkgdir", "file_add", "file_remove", "file_rename",
-              "tag_file_body"]
+              "tag_file_body", "samesize_newmtime"]
 GATED_KINDS = ["embed_content", "embed_bytes", "embed_set", "c_file_subdir", "c_hdr_subdir", "samesize_mtime", "samesize_mtime_embed"]
 CONFIG_KINDS = ["tags", "abi"] + ["env:" + v[0] for v in ENV_VARS]
 META_KINDS = ["noop", "revert_mtime", "clear_module", "clear_all"]
@@ -339,6 +353,11 @@ def apply_edit(kind, s, cfg, rng):
         s[key] = _samelen(rng, s[key])
         info.update(pkg=pk, desc="same-size edit of %s/%s.go (K -> %d) with the old mtime put back" % (pk, pk, s[key]),
                     preserve_mtime=["%s/%s.go" % (pk, pk)])
+    elif kind == "samesize_newmtime":
+        pk = rng.choice(["pc", "pg"])
+        key = {"pc": "pc_k", "pg": "pg_k"}[pk]
+        s[key] = _samelen(rng, s[key])
+        info.update(pkg=pk, desc="same-size edit of %s/%s.go (K -> %d), mtime as written" % (pk, pk, s[key]))
     elif kind == "samesize_mtime_embed":
         cur = s["pa_a"]
         digits = [i for i, ch in enumerate(cur) if ch.isdigit()]
